@@ -38,6 +38,11 @@ type TPOp struct {
 	Ref  int    `json:"ref,omitempty"`
 	Dead bool   `json:"dead,omitempty"`
 	Bad  string `json:"bad,omitempty"` // "" | unknown (a lease id nobody was given)
+	// Batch: the lease_ids form, naming the lease of Ref and - when Ref2 != 0 - a second one;
+	// Pad: the ids are sent with surrounding white space (a trailing newline, blanks)
+	Batch bool `json:"batch,omitempty"`
+	Ref2  int  `json:"ref2,omitempty"`
+	Pad   bool `json:"pad,omitempty"`
 }
 
 type TPCase struct {
@@ -72,6 +77,13 @@ func genTPCase() *rapid.Generator[TPCase] {
 				if rapid.IntRange(0, 7).Draw(t, "bad") == 0 {
 					op.Bad = "unknown"
 				}
+			}
+			if op.K == "ack" || op.K == "nack" {
+				if rapid.IntRange(0, 2).Draw(t, "batch") == 0 {
+					op.Batch = true
+					op.Ref2 = rapid.SampledFrom([]int{0, 0, -1, -2, 1, 3}).Draw(t, "ref2")
+				}
+				op.Pad = rapid.IntRange(0, 3).Draw(t, "pad") == 0
 			}
 			return op
 		})
@@ -123,6 +135,31 @@ func tpClass(httpCode int, err error, grpc bool) string {
 	return fmt.Sprintf("other:%d", httpCode)
 }
 
+// batch answers: how many were done, how many were refused as conflicts (the HTTP status of a batch
+// with conflicts is 409, the gRPC call itself succeeds: the counts are what both transports report)
+func tpBatchClass(class string, done, conflicts int) string {
+	if class != "ok" && class != "conflict" {
+		return class
+	}
+	return fmt.Sprintf("batch done=%d conflicts=%d", done, conflicts)
+}
+
+func tpBatchHTTP(code int, m map[string]any, key string) string {
+	class := tpClass(code, nil, false)
+	if class != "ok" && class != "conflict" {
+		return class
+	}
+	done := 0
+	if v, ok := m[key].(float64); ok {
+		done = int(v)
+	}
+	conflicts := 0
+	if cl, ok := m["conflicts"].([]any); ok {
+		conflicts = len(cl)
+	}
+	return tpBatchClass("ok", done, conflicts)
+}
+
 func (t *tpWorld) lease(op TPOp) string {
 	if op.Bad == "unknown" || len(t.wallet) == 0 {
 		return "lease_00000000deadbeef"
@@ -137,6 +174,34 @@ func (t *tpWorld) lease(op TPOp) string {
 		k %= len(t.wallet)
 	}
 	return t.wallet[k]
+}
+
+// leases returns the ids an op presents (one for the single form).
+func (t *tpWorld) leases(op TPOp) []string {
+	ids := []string{t.lease(op)}
+	if op.Batch && op.Ref2 != 0 {
+		o2 := op
+		o2.Ref, o2.Bad = op.Ref2, ""
+		if l := t.lease(o2); l != ids[0] {
+			ids = append(ids, l)
+		}
+	}
+	if op.Pad {
+		for i := range ids {
+			ids[i] = []string{" %s", "%s\n", "\t%s  "}[i%3]
+			ids[i] = fmt.Sprintf(ids[i], append([]any(nil), t.leasePlain(op, i))...)
+		}
+	}
+	return ids
+}
+
+func (t *tpWorld) leasePlain(op TPOp, i int) string {
+	if i == 0 {
+		return t.lease(op)
+	}
+	o2 := op
+	o2.Ref, o2.Bad = op.Ref2, ""
+	return t.lease(o2)
 }
 
 func (t *tpWorld) do(op TPOp) (class string, granted []string) {
@@ -172,10 +237,18 @@ func (t *tpWorld) do(op TPOp) (class string, granted []string) {
 			}
 			return tpClass(0, err, true), granted
 		case "ack":
-			_, err := t.wk.Ack(ctx, &workerapipb.AckRequest{Endpoint: "/pull/p", LeaseId: t.lease(op)})
+			if op.Batch {
+				resp, err := t.wk.Ack(ctx, &workerapipb.AckRequest{Endpoint: "/pull/p", LeaseIds: t.leases(op)})
+				return tpBatchClass(tpClass(0, err, true), int(resp.GetAcked()), len(resp.GetConflicts())), nil
+			}
+			_, err := t.wk.Ack(ctx, &workerapipb.AckRequest{Endpoint: "/pull/p", LeaseId: t.leases(op)[0]})
 			return tpClass(0, err, true), nil
 		case "nack":
-			_, err := t.wk.Nack(ctx, &workerapipb.NackRequest{Endpoint: "/pull/p", LeaseId: t.lease(op), Delay: durationpb.New(d), Dead: op.Dead, Reason: "no_retry"})
+			if op.Batch {
+				resp, err := t.wk.Nack(ctx, &workerapipb.NackRequest{Endpoint: "/pull/p", LeaseIds: t.leases(op), Delay: durationpb.New(d), Dead: op.Dead, Reason: "no_retry"})
+				return tpBatchClass(tpClass(0, err, true), int(resp.GetSucceeded()), len(resp.GetConflicts())), nil
+			}
+			_, err := t.wk.Nack(ctx, &workerapipb.NackRequest{Endpoint: "/pull/p", LeaseId: t.leases(op)[0], Delay: durationpb.New(d), Dead: op.Dead, Reason: "no_retry"})
 			return tpClass(0, err, true), nil
 		case "ext":
 			_, err := t.wk.Extend(ctx, &workerapipb.ExtendRequest{Endpoint: "/pull/p", LeaseId: t.lease(op), ExtendBy: durationpb.New(d)})
@@ -227,14 +300,26 @@ func (t *tpWorld) do(op TPOp) (class string, granted []string) {
 		}
 		return tpClass(code, nil, false), granted
 	case "ack":
-		code, _ := call("ack", map[string]any{"lease_id": t.lease(op)})
+		if op.Batch {
+			code, m := call("ack", map[string]any{"lease_ids": t.leases(op)})
+			return tpBatchHTTP(code, m, "acked"), nil
+		}
+		code, _ := call("ack", map[string]any{"lease_id": t.leases(op)[0]})
 		return tpClass(code, nil, false), nil
 	case "nack":
-		body := map[string]any{"lease_id": t.lease(op), "delay": ms}
+		body := map[string]any{"delay": ms}
+		if op.Batch {
+			body["lease_ids"] = t.leases(op)
+		} else {
+			body["lease_id"] = t.leases(op)[0]
+		}
 		if op.Dead {
 			body["dead"], body["reason"] = true, "no_retry"
 		}
-		code, _ := call("nack", body)
+		code, m := call("nack", body)
+		if op.Batch {
+			return tpBatchHTTP(code, m, "succeeded"), nil
+		}
 		return tpClass(code, nil, false), nil
 	case "ext":
 		code, _ := call("extend", map[string]any{"lease_id": t.lease(op), "extend_by": ms})
